@@ -24,4 +24,17 @@ META = {
         "note": _common_note + "char_to_str_pos/str_to_char_pos are modelled as functions of the text.",
         "technique": "Lean 4 proof by induction over the label list on a hand-written model + differential correspondence",
     },
+    "C05": {
+        "text": "Unbounded Lean theorems over the mirrored parsers and the Sentence record: every constructor/update is Safe (never "
+                "panic/ub) for every input string (C05_total), a failed update leaves exactly the default sentence (C05_err_default), "
+                "a successful update yields exactly the record the constructor builds from the same input, field by field "
+                "(C05_ok_describes), the consistency invariant holds for the default sentence, is preserved by every op and hence "
+                "by every history (C05_history_inv, induction over the op list), and on a consistent sentence every accessor, "
+                "writer and iterator is Safe, for arbitrary label vectors (C05_accessors). Tied to /repo by exhaustive short-string / "
+                "short-history and random differential runs with observation after every call, plus an implementation-side oracle.",
+        "design_ref": "DESIGN.md §6 C05",
+        "note": _common_note + "Panics of the Rust code are located by hand (unwrap, indexing, slicing, division) when writing the model; "
+                "a panic site missed by the model shows up as a correspondence disagreement only if the generators reach it.",
+        "technique": "Lean 4 proof: parser loop invariants + sentence invariant by induction over operation histories; differential correspondence",
+    },
 }
